@@ -213,9 +213,21 @@ impl Plan {
         if rng.pct(40) {
             Fault::Truncate { at }
         } else {
-            Fault::Io { at, kind: rng.pick(&["Other", "UnexpectedEof", "WouldBlock", "BrokenPipe", "InvalidData", "TimedOut"]).to_string() }
+            // a trailing `!` = the error carries no payload (`io::Error::from(kind)`, what std itself returns in places);
+            // `os:<n>` = an error made from an OS error number; otherwise a custom error with a message
+            Fault::Io { at, kind: rng.pick(&["Other", "UnexpectedEof", "WouldBlock", "BrokenPipe", "InvalidData", "TimedOut", "InvalidData!", "UnexpectedEof!", "Other!", "os:5", "os:11", "os:104"]).to_string() }
         }
     }
+}
+
+pub fn make_error(kind: &str) -> io::Error {
+    if let Some(n) = kind.strip_prefix("os:") {
+        return io::Error::from_raw_os_error(n.parse().unwrap_or(5));
+    }
+    if let Some(k) = kind.strip_suffix('!') {
+        return io::Error::from(kind_of(k));
+    }
+    io::Error::new(kind_of(kind), "simulated I/O failure")
 }
 
 pub fn kind_of(s: &str) -> ErrorKind {
@@ -321,7 +333,7 @@ impl<'a> BufRead for SimReader<'a> {
                 self.io_done = true;
                 self.stats.io_fired += 1;
                 self.log.u64(u64::MAX - 1);
-                return Err(io::Error::new(kind_of(kind), "simulated I/O failure"));
+                return Err(make_error(kind));
             }
         }
         if self.pos >= self.end {
